@@ -3,7 +3,6 @@ package main
 import (
 	"fmt"
 	"math/rand"
-	"os"
 	"sort"
 	"strings"
 	"sync"
@@ -76,6 +75,9 @@ type RunResult struct {
 	MaxTicks   int
 	Validated  int
 	ValidErr   string
+	CrossSolver string
+	CrossPaths  int
+	CrossS      float64
 }
 
 func (e *Engine) resetPath(dec []bool) {
@@ -230,7 +232,7 @@ func (e *Engine) runPath(dec []bool, wantSample bool) (res pathResult, alts [][]
 }
 
 // explore runs every feasible path of a harness on nw workers.
-func explore(prog *ssa.Program, spec *RunSpec, nw int, known []KnownFinding, seed int64, nsamples int) *RunResult {
+func explore(prog *ssa.Program, spec *RunSpec, nw int, known []KnownFinding, seed int64, nsamples int, solverKind string) *RunResult {
 	res := &RunResult{Spec: spec, Covers: map[string]bool{}, Funcs: map[string]bool{}}
 	t0 := time.Now()
 	var mu sync.Mutex
@@ -248,7 +250,7 @@ func explore(prog *ssa.Program, spec *RunSpec, nw int, known []KnownFinding, see
 		wg.Add(1)
 		go func(w int) {
 			defer wg.Done()
-			we := &Engine{prog: prog, solver: newSolver(os.Getenv("GOSYM_SOLVER")), funcs: map[string]bool{}, spec: spec, known: known}
+			we := &Engine{prog: prog, solver: newSolver(solverKind), funcs: map[string]bool{}, spec: spec, known: known}
 			defer we.solver.close()
 			defer func() {
 				if r := recover(); r != nil {
